@@ -284,6 +284,9 @@ pub fn run(l: &Loaded, input: &str, o: &RunOpts, work_limit: usize) -> Run {
     let outcome = match r {
         Ok(Ok(())) => Outcome::Ok,
         Ok(Err(e)) => {
+            if std::env::var("PV_SHOW_ERR").is_ok() {
+                eprintln!("{e:#?}");
+            }
             let (c, n) = classify_err(&e);
             if c == "WORKLIMIT" { Outcome::WorkLimit } else { Outcome::Err(c, n) }
         }
